@@ -379,7 +379,7 @@ void Json::Private::appendEscapedString(const String& str, String& result)
   result += '"';
   for(const char* start = str, * p = start;;)
   {
-    const char* e = String::findOneOf(p, "\"\\");
+    const char* e = String::findOneOf(p, "\"\\\b\f\n\r\t");
     if(!e)
     {
       result.append(p, strLen - (p - start));
@@ -394,6 +394,21 @@ void Json::Private::appendEscapedString(const String& str, String& result)
       break;
     case '\\':
       result += "\\\\";
+      break;
+    case '\b':
+      result += "\\b";
+      break;
+    case '\f':
+      result += "\\f";
+      break;
+    case '\n':
+      result += "\\n";
+      break;
+    case '\r':
+      result += "\\r";
+      break;
+    case '\t':
+      result += "\\t";
       break;
     }
     p = e + 1;
